@@ -7,6 +7,7 @@ if ! git diff --quiet; then echo "/repo has local changes"; exit 2; fi
 git apply "$patch" || { echo "patch does not apply"; exit 2; }
 trap 'git -C /repo checkout -- . ; git -C /repo clean -fdq -- controllers pkg api cmd 2>/dev/null' EXIT
 cd /verif
+export VERIF_EVIDENCE_DIR=/verif/.build/seed-evidence
 for p in "$@"; do
   out=$(./check "$p" --tier "${TIER:-quick}" 2>&1); rc=$?
   echo "$p rc=$rc | $(echo "$out" | grep '^VIOLATION' | head -2 | tr '\n' ' ') | $(echo "$out" | tail -1)"
